@@ -13,6 +13,7 @@ them with the implementation model (drift).  This file only records; it contains
 from __future__ import annotations
 
 import itertools
+import os
 import random
 import re
 from typing import Any, Optional
@@ -21,9 +22,12 @@ from .. import core, pyz
 
 LEVEL = "model_checking"
 
-NAMES = ["a", "b", "c", "d", "e", "f"]  # Names of CPythonBind.tla: the i-th parameter is called NAMES[i]
-EXTRA = "z"
+EXTRA = "z"  # Extra of CPythonBind.tla: a keyword that names no parameter
 MAXEXP = 4
+
+# C05_MODEL_FIXES=1 (together with VERIF_REPO=<tree with proposed/C05-fix-*.diff applied>) validates the
+# proposed repairs: the observations are then compared with the model in which both repairs are switched on.
+TRACE_CFG = "BinderTrace.fixed.cfg" if os.environ.get("C05_MODEL_FIXES") else "BinderTrace.cfg"
 
 BIND_ACTIONS = [
     "PosOnly_FromPositional", "PosOnly_FromStar", "PosOnly_Default", "PosOnly_Missing",
@@ -39,12 +43,12 @@ BIND_ACTIONS = [
 
 
 def def_source(sig: list[dict], fname: str = "f") -> str:
-    """`def f(...)` for a signature term; parameter i is called NAMES[i]."""
+    """`def f(...)` for a signature term [{kind, name, dflt}, ...]."""
     parts: list[str] = []
     kinds = [p["kind"] for p in sig]
     for i, p in enumerate(sig):
         k = p["kind"]
-        name = NAMES[i]
+        name = p["name"]
         if k == "ko" and "va" not in kinds and (i == 0 or kinds[i - 1] != "ko"):
             parts.append("*")
         if k == "va":
@@ -162,12 +166,12 @@ def real_bind(case: dict) -> dict:
 
     markers = {id(te.ARGS): "ARGS", id(te.KWARGS): "KWARGS", id(te.DEFAULT): "DEFAULT", id(te.UNKNOWN): "UNKNOWN"}
     positions = []
-    for i in range(len(sig)):
-        pos = bound[NAMES[i]][0]
+    for p in sig:
+        pos = bound[p["name"]][0]
         if isinstance(pos, int):
             positions.append(f"P{pos}")
         elif isinstance(pos, str):
-            positions.append("K" if pos == NAMES[i] else "K:" + pos)
+            positions.append("K" if pos == p["name"] else "K:" + pos)
         else:
             positions.append(markers.get(id(pos), repr(pos)))
     return {"verdict": "ok", "positions": positions, "errclass": ""}
@@ -175,8 +179,8 @@ def real_bind(case: dict) -> dict:
 
 def real_cpython(case: dict) -> tuple[str, dict]:
     """Really execute the call.  Concrete shape: "ok" / "err" (TypeError).  Unknown-length star arguments:
-    execute every expansion (xs/ts of 0..MAXEXP elements, kw over every set of <= MAXEXP of the relevant
-    names) and report which ones CPython bound."""
+    execute every expansion (xs/ts of 0..bound elements, kw over every set of <= bound of the relevant
+    names; bound = max(MAXEXP, number of parameters)) and report which ones CPython bound."""
     sig, call = case["sig"], case["call"]
     f = real_function(sig)
     code = compile(call_source(call), "<c05-call>", "eval")
@@ -192,11 +196,12 @@ def real_cpython(case: dict) -> tuple[str, dict]:
 
     if not unk_star and not unk_dstar:
         return ("ok" if run({}) else "err"), {"names": [], "maxexp": MAXEXP, "total": 0, "binding": []}
-    names = sorted({NAMES[i] for i in range(len(sig))} | set(call["kws"]) | {EXTRA})
-    lengths = range(MAXEXP + 1) if unk_star else [0]
+    names = sorted({p["name"] for p in sig} | set(call["kws"]) | {EXTRA})
+    bound = max(MAXEXP, len(sig))  # ExpBound of CPythonBind.tla (the trace spec checks it is the same number)
+    lengths = range(bound + 1) if unk_star else [0]
     keysets: list[tuple[str, ...]] = [()]
     if unk_dstar:
-        keysets = [ks for r in range(MAXEXP + 1) for ks in itertools.combinations(names, r)]
+        keysets = [ks for r in range(bound + 1) for ks in itertools.combinations(names, r)]
     binding = []
     total = 0
     for n in lengths:
@@ -205,19 +210,26 @@ def real_cpython(case: dict) -> tuple[str, dict]:
             total += 1
             if run({"xs": seq, "ts": tuple(seq), "kw": dict.fromkeys(ks, 0)}):
                 binding.append([n, list(ks)])
-    return "na", {"names": names, "maxexp": MAXEXP, "total": total, "binding": binding}
+    return "na", {"names": names, "maxexp": bound, "total": total, "binding": binding}
 
 
 def observe_one(arg: tuple[int, dict]) -> dict:
     tid, case = arg
     cpy, exp = real_cpython(case)
-    return {"tid": tid, "case": case, "real": real_bind(case), "vis": "none", "cpy": cpy, "exp": exp}
+    return {"tid": tid, "case": case, "real": real_bind(case), "vis": "none", "vispos": ["none"], "cpy": cpy, "exp": exp}
 
 
-def visitor_verdicts(cases: list[dict], group: int = 120) -> list[str]:
+_MARKERS = {"*args": "ARGS", "**kwargs": "KWARGS", "default": "DEFAULT", "unknown": "UNKNOWN"}
+
+
+def visitor_verdicts(cases: list[dict], group: int = 120) -> list[tuple[str, list[str]]]:
     """Send cases through the real NameCheckVisitor: one generated module per `group` cases, one `def` and
-    one call line per case; verdict = incompatible_call reported on that call line."""
-    out: list[str] = []
+    one call line per case; verdict = incompatible_call reported on that call line.  If the `Bind` hook
+    (proposed/C05-hook.diff) is present in the tree, the positions the visitor's own bind_arguments call
+    recorded for that line are returned as well (else ["none"])."""
+    from pyanalyze import _verif_trace
+
+    out: list[tuple[str, list[str]]] = []
     for g in range(0, len(cases), group):
         part = cases[g : g + group]
         lines = [def_source(c["sig"], f"f{j}") for j, c in enumerate(part)]
@@ -225,13 +237,32 @@ def visitor_verdicts(cases: list[dict], group: int = 120) -> list[str]:
         first = len(lines) + 1
         lines += ["    " + call_source(c["call"], f"f{j}") for j, c in enumerate(part)]
         src = "\n".join(lines) + "\n"
-        fails = pyz.check_source(src)
+        sink: list[dict] = []
+        _verif_trace.set_sink(sink)
+        try:
+            fails = pyz.check_source(src)
+        finally:
+            _verif_trace.set_sink(None)
         flagged = set()
         for code, lineno, _col in pyz.brief(fails):
             if code != "incompatible_call" or lineno is None or not (first <= lineno < first + len(part)):
                 raise core.MachineryError(f"realisation raised unexpected diagnostic {code} at line {lineno} in\n{src}")
             flagged.add(lineno - first)
-        out += ["err" if j in flagged else "ok" for j in range(len(part))]
+        hooked: dict[int, list[str]] = {}
+        for ev in sink:
+            if ev.get("event") != "Bind" or ev.get("lineno") is None:
+                continue
+            j = ev["lineno"] - first
+            if not (0 <= j < len(part)) or ev.get("callee") != f"f{j}":
+                continue
+            if ev["positions"] is None:
+                hooked[j] = ["rejected"]
+            else:
+                hooked[j] = [
+                    f"P{pos}" if isinstance(pos, int) else _MARKERS.get(pos, "K" if pos == name else "K:" + pos)
+                    for name, pos in ev["positions"]
+                ]
+        out += [("err" if j in flagged else "ok", hooked.get(j, ["none"])) for j in range(len(part))]
     return out
 
 
@@ -282,10 +313,13 @@ def judge(check: core.Check, cases: list[dict], label: str, n_visitor: int = 0, 
         chunks = [idx[i : i + 120] for i in range(0, len(idx), 120)]
         results = core.pmap(_visitor_chunk, [[cases[i] for i in ch] for ch in chunks], chunk=1)
         for ch, res in zip(chunks, results):
-            for i, v in zip(ch, res):
+            for i, (v, vp) in zip(ch, res):
                 obs[i]["vis"] = v
+                obs[i]["vispos"] = vp
+                if vp != ["none"]:
+                    check.cov["visitor_bind_hook_observations"] = check.cov.get("visitor_bind_hook_observations", 0) + 1
         check.cov["visitor_observations"] = check.cov.get("visitor_observations", 0) + len(idx)
-    verdicts, stats = adjudicate_parallel("BinderTrace", "BinderTrace.cfg", obs, batch=6000, parallel=8)
+    verdicts, stats = adjudicate_parallel("BinderTrace", TRACE_CFG, obs, batch=6000, parallel=8)
     check.add_trace_stats(stats)
     check.evals(len(obs))
     for o in obs:
@@ -294,7 +328,7 @@ def judge(check: core.Check, cases: list[dict], label: str, n_visitor: int = 0, 
             check.nontrivial(core.canon(c))
         for v in verdicts.get(o["tid"], []):
             payload = {"case": c, "def": def_source(c["sig"]), "call": call_source(c["call"]), "real": o["real"],
-                       "vis": o["vis"], "cpy": o["cpy"], "exp": o["exp"], "source": label}
+                       "vis": o["vis"], "vispos": o["vispos"], "cpy": o["cpy"], "exp": o["exp"], "source": label}
             if v.startswith("viol:"):
                 check.violation(core.canon(c), v[5:], payload)
             elif v.startswith("dev:"):
@@ -308,7 +342,7 @@ def judge(check: core.Check, cases: list[dict], label: str, n_visitor: int = 0, 
                       "real": o["real"], "vis": o["vis"], "cpy": o["cpy"], "binding_expansions": len(o["exp"]["binding"])})
 
 
-def _visitor_chunk(part: list[dict]) -> list[str]:
+def _visitor_chunk(part: list[dict]) -> list[tuple[str, list[str]]]:
     return visitor_verdicts(part, group=len(part))
 
 
@@ -333,16 +367,23 @@ def run(check: core.Check) -> None:
         "argument values are ints and parameters are unannotated, so incompatible_call can only come from binding; "
         "the i-th parameter is named a..f, keywords range over the parameter names and one foreign name z",
         "unknown-length star arguments are values typed list[int], tuple[int, ...], dict[str, int]; their expansions are "
-        f"enumerated up to {MAXEXP} elements / keys over the parameter names, the call's keywords and z",
+        f"enumerated up to {MAXEXP} elements / keys (up to the number of parameters if that is larger, for the existential "
+        "clause) over the parameter names, the call's keywords and z",
     ]
     # 1. the design: exhaustive model checking of the binder machine against the CPython reference
-    # (quick: the same run emits the cases; thorough: a separate emission run on a smaller bound, below)
-    cfg = "Binder.quick.cfg" if quick else "Binder.thorough.cfg"
-    res = core.require_ok(
-        core.run_tlc("BinderEmit" if quick else "Binder", cfg, coverage=True, timeout=3000), "Binder exhaustive"
-    )
+    # (the quick-bound run also emits its cases, which the quick tier replays; the thorough tier replays the
+    # cases of a separate emission run on a middle bound, see 2.)
+    # Vacuity control (-coverage 1 makes TLC about 3x slower): the quick bound is run with coverage in both
+    # tiers -- every action of the machine must fire there; the two big thorough runs go without it.
+    res = core.require_ok(core.run_tlc("BinderEmit", "Binder.quick.cfg", coverage=True, timeout=3000), "Binder exhaustive")
     core.require_coverage(res, BIND_ACTIONS, "Binder")
-    check.add_tlc("exhaustive:" + cfg, res)
+    check.add_tlc("exhaustive+coverage:Binder.quick.cfg", res)
+    if not quick:
+        # <= 4 parameters with wide calls, and <= 5 parameters (all five kinds at once) with narrower calls
+        for big in ("Binder.thorough.cfg", "Binder.thorough5.cfg"):
+            rb = core.require_ok(core.run_tlc("Binder", big, timeout=3300), "Binder exhaustive " + big)
+            check.add_tlc("exhaustive:" + big, rb)
+            del rb
     # sensitivity: seeded model bugs and the strict (deviation-free) invariants must be rejected
     sens = []
     for scfg, inv in (
@@ -370,9 +411,10 @@ def run(check: core.Check) -> None:
     if not cases:
         raise core.MachineryError("no cases emitted by TLC")
     limit = 60000 if quick else 500000
-    cases, exhaustive = _sample(cases, limit, rnd)
-    check.cov["exhaustive"] = exhaustive
     check.cov["model_cases"] = len(cases)
+    cases, exhaustive = _sample(cases, limit, rnd)
+    check.cov["exhaustive"] = exhaustive  # of the replayed bound (quick: Binder.quick.cfg, thorough: Binder.emit.cfg)
+    check.cov["replayed_cases"] = len(cases)
     check.cov["rule"] = (
         "cases = states with stage=done of Binder.tla: (signature of <=MaxParams parameters over 5 kinds x defaults) x "
         "(call: <=MaxPos positionals, optional *tuple-literal / *list[int] / *tuple[int,...], <=MaxPost positionals after it, "
@@ -401,7 +443,7 @@ def replay(check: core.Check, witness: dict) -> None:
 
 def selftest_binding(check: core.Check) -> None:
     """Corrupt one recorded field of a real observation and confirm that TLC's verdict flags it."""
-    sig = [{"kind": "pk", "dflt": False}, {"kind": "pk", "dflt": True}]
+    sig = [{"kind": "pk", "name": "a", "dflt": False}, {"kind": "pk", "name": "b", "dflt": True}]
     call = {"pos": 1, "star": {"kind": "none", "n": 0}, "post": 0, "kws": ["b"], "dstar": "none", "dkeys": []}
     good = observe_one((0, {"sig": sig, "call": call}))
     variants = {"unchanged": good}
@@ -411,7 +453,7 @@ def selftest_binding(check: core.Check) -> None:
     variants["recorded position changed"] = v
     v = dict(good, tid=3, cpy="err")
     variants["recorded CPython outcome flipped"] = v
-    verdicts, _ = core.adjudicate("BinderTrace", "BinderTrace.cfg", list(variants.values()))
+    verdicts, _ = core.adjudicate("BinderTrace", TRACE_CFG, list(variants.values()))
     expect = {0: [], 1: ["viol:ConcreteAgrees", "drift:verdict"], 2: ["drift:positions"], 3: ["oracle:concrete-call"]}
     for (name, o) in variants.items():
         got = verdicts.get(o["tid"], [])
